@@ -12,6 +12,7 @@ import (
 	"net"
 	"net/http"
 	"net/url"
+	"runtime/debug"
 	"strings"
 
 	"github.com/gobwas/httphead"
@@ -692,15 +693,29 @@ func subWriteSide() mon.Sub {
 	apis := []string{"WriteMessage-client", "WriteClientText", "WriteClientBinary", "Writer.Write-client", "Writer.WriteThrough-client", "Writer.WriteThrough-server", "WriteMessage-server", "Writer.ReadFrom-client", "Writer.Write-server", "CipherWriter.Write", "MaskFrame", "MaskFrameWith", "UnmaskFrame", "GetWriter-client"}
 	return mon.Sub{
 		Name: "write-side", Exhaustive: true, Required: true,
-		N: func(t string) int { return len(apis) * len(sizes) * 4 },
+		N: func(t string) int { return len(apis) * len(sizes) * 5 },
 		Do: func(c *mon.C) {
 			api := apis[c.I%len(apis)]
 			sz := sizes[c.I/len(apis)%len(sizes)]
+			readOnly := c.I/len(apis)/len(sizes) == 4
 			orig := make([]byte, sz)
 			c.Rng.Read(orig)
 			// (the caller's slice is a view into a larger buffer of its own: what lies in front of it and behind it -
 			// its spare capacity - is the caller's memory as well)
 			p, _, neighbours := xport.Arena3(orig)
+			if readOnly {
+				// fifth round: the caller's bytes lie in READ-ONLY memory (a mapped file, a constant): an API that does
+				// not modify them never stores there, not even to undo it before it returns - a store is a fault,
+				// reported as a panic with the library function that made it
+				ro, free, err := xport.ReadOnly(orig)
+				if err != nil {
+					c.Inconclusive("no read-only mapping: " + err.Error())
+					return
+				}
+				defer free()
+				defer debug.SetPanicOnFault(debug.SetPanicOnFault(true))
+				p, neighbours = ro, func() string { return "" }
+			}
 			wt := &watch{p: p, want: append([]byte(nil), orig...)}
 			dst := &keepDst{w: wt, failAt: -1}
 			failing := c.I/len(apis)/len(sizes) == 2 && !strings.HasPrefix(api, "MaskFrame") && api != "UnmaskFrame"
@@ -708,7 +723,12 @@ func subWriteSide() mon.Sub {
 				// the destination fails half way through (short count + error)
 				dst.failAt = sz / 2
 			}
-			scrib := func(lo, hi int) { scribble(wt.p[lo:hi]); scribble(wt.want[lo:hi]) }
+			scrib := func(lo, hi int) {
+				if !readOnly {
+					scribble(wt.p[lo:hi])
+					scribble(wt.want[lo:hi])
+				}
+			}
 			det := map[string]interface{}{"api": api, "size": sz, "destination_fails_after": dst.failAt}
 			var err error
 			var out ws.Frame
@@ -851,7 +871,7 @@ func subWriteSide() mon.Sub {
 			if out.Payload != nil {
 				outCopy = append([]byte(nil), out.Payload...)
 			}
-			if reuse {
+			if reuse && !readOnly {
 				scribble(p)
 			}
 			traffic(c, c.I)
